@@ -10,8 +10,13 @@ ASSUME = ["model: offered = pending items none of whose registered dependencies 
           "histories recorded from real compilations (hook H2) are replayed against the same model in C20/C26's pipeline part"]
 
 
+# the same lock-step monitor interpreted by Miri
+MIRI = {"quick": ["--items", "2", "--rounds", "4", "--maxstates", "300", "--random", "40"],
+        "thorough": ["--items", "3", "--rounds", "6", "--maxstates", "40000", "--random", "3000"], "shards": 6, "shard_by_seed": True}
+
+
 def run(tier, seed):
-    return run_probe_check("C26", tier, seed, RULE, ASSUME, min_evals=100000)
+    return run_probe_check("C26", tier, seed, RULE, ASSUME, min_evals=100000, miri=MIRI)
 
 
 def replay(path):
